@@ -116,7 +116,10 @@ def run(ctx, replay=None):
         "construct+fit when the estimator cannot be deep-copied: the numba-backed co-occurrence family and LZ)",
         "sizes: beside the tiny cells every seeded SVD / mixture estimator has big cells (40-60 rows, n_components 2-3, LOT / vector dimension "
         "> n_components + 10, memory_size giving >= 2 full blocks of >= n_components + 12 rows) where sklearn's randomized_svd is not exact; the "
-        "child counts exact / non-exact randomized_svd calls per cell and the run fails (no-failing-input-found) if a seeded path had none; numpy's and "
+        "child counts exact / non-exact randomized_svd calls per cell, and in every big cell makes one more fit in which the FIRST randomized_svd call "
+        "gets a generator of the harness (evidence seed_sensitive: the model then differs by more than the tolerance); the run fails "
+        "(no-failing-input-found) if a seeded path had no such cell; n_svd_iter / n_iter is 0 or 1 in the big cells (with the default 7-10 power "
+        "iterations - with 2 on Sinkhorn vectors - the SVD of such small matrices converges to ~1e-9 whatever the start); numpy's and "
         "Python's global generators are seeded per cell and advanced by unrelated draws before EVERY call",
         "constructor parameters: get_params(deep=False) (the constructor-named attributes where it raises) compared by value after every call "
         "with the values right after construction (functions / generator objects by identity)",
@@ -143,7 +146,7 @@ def run(ctx, replay=None):
         results = list(ex.map(run_child, batches))
     n_calls = n_raised = 0
     aliases, faults, per_est, errors, seen, walls = {}, {}, {}, [], {}, {}
-    svd_seen, kw_seen, params_via, big_fits = {}, {}, {}, {"compared": 0, "degenerate_svd": 0}
+    svd_seen, sens_seen, kw_seen, params_via, big_fits = {}, {}, {}, {}, {"compared": 0, "degenerate_svd": 0}
     ctx.coverage["child_wall_s"] = {"+".join(sorted({j["est"] + ("[%s]" % ",".join(v[0] for v in j["where"].values()) if j.get("where") else "")
                                                      for j in jobs})): info["wall_s"] for jobs, _, info in results}
     for jobs, res, info in results:
@@ -182,6 +185,7 @@ def run(ctx, replay=None):
                 for j, (n2, cond) in enumerate(SEEDED_SVD):
                     if n2 == r["est"] and all(str(r["cell"].get(k)) == v for k, v in cond.items()) and not r["checks"].get("degenerate_svd"):
                         svd_seen[j] = svd_seen.get(j, 0) + (r.get("svd") or {}).get("randomized_non_exact", 0)
+                        sens_seen[j] = sens_seen.get(j, 0) + (r["checks"].get("seed_sensitive") == "yes")
             if ok:
                 seen.setdefault((r["est"], r["seed"]), set()).add(r.get("cell_index"))
                 for k, v in (r.get("cell") or {}).items():
@@ -191,7 +195,7 @@ def run(ctx, replay=None):
             for a in r.get("aliases", []):
                 aliases["%s.%s" % (r["est"], a)] = aliases.get("%s.%s" % (r["est"], a), 0) + 1
             for k, v in r.get("checks", {}).items():
-                if k.startswith("fault_") or k in ("reference", "degenerate_svd", "degenerate_svd_refit", "poison"):
+                if k.startswith("fault_") or k in ("reference", "degenerate_svd", "degenerate_svd_refit", "poison", "seed_sensitive"):
                     faults["%s:%s" % (k, v)] = faults.get("%s:%s" % (k, v), 0) + 1
             if r.get("error"):
                 errors.append("%s/%s cell %s %s: %s" % (r["est"], r["seed"], r.get("cell_index"), json.dumps(r.get("cell")), r["error"]))
@@ -209,7 +213,8 @@ def run(ctx, replay=None):
     ctx.coverage["traces_validated_against_impl"] = n_calls
     ctx.coverage["scenario_errors"] = errors[:20]
     ctx.coverage["seeded_fits_at_non_exact_sizes"] = dict(big_fits, non_exact_randomized_svd_calls={
-        "%s %s" % (n2, json.dumps(cond, sort_keys=True)): svd_seen.get(j, 0) for j, (n2, cond) in enumerate(SEEDED_SVD)})
+        "%s %s" % (n2, json.dumps(cond, sort_keys=True)): svd_seen.get(j, 0) for j, (n2, cond) in enumerate(SEEDED_SVD)},
+        cells_that_see_one_reseeded_svd_call={"%s %s" % (n2, json.dumps(cond, sort_keys=True)): sens_seen.get(j, 0) for j, (n2, cond) in enumerate(SEEDED_SVD)})
     ctx.coverage["keyword_phase_cells"] = kw_seen
     ctx.coverage["constructor_parameters_read_via"] = params_via
     # completeness of the walk: every cell of every table ran to the end, for every seed; the named values were covered
@@ -230,8 +235,9 @@ def run(ctx, replay=None):
                 if miss:
                     problems.append("%s: %s never took the value(s) %s" % (name, dim, miss))
         for j, (n2, cond) in enumerate(SEEDED_SVD):
-            if not svd_seen.get(j):
-                problems.append("%s %s: no big cell with a non-exact randomized_svd was compared between two fits" % (n2, cond))
+            if not svd_seen.get(j) or not sens_seen.get(j):
+                problems.append("%s %s: no big cell compared between two fits had a non-exact randomized_svd (%d calls) whose generator matters "
+                                "(%d cells told a reseeded first call from the seeded one)" % (n2, cond, svd_seen.get(j, 0), sens_seen.get(j, 0)))
         for n2 in KEYWORD_PHASE:
             if not kw_seen.get(n2):
                 problems.append("%s: the keyword phase never ran" % n2)
